@@ -175,24 +175,16 @@ func pipeSplitRule(R string) RuleFunc {
 						other = name
 					}
 				}
-				rs, isR := n.(*ast.RangeStmt)
-				if !isR {
-					return true
-				}
-				call, isC := ast.Unparen(rs.X).(*ast.CallExpr)
-				if !isC || core.FullName(core.Callee(d.Pkg, call)) != "strings.Split" || len(call.Args) != 2 {
-					return true
-				}
-				if cv := core.ConstOf(d.Pkg, call.Args[1]); cv == nil || cv.ExactString() != `"|"` {
-					return true
-				}
-				v := ""
-				if id, isID := rs.Value.(*ast.Ident); isID {
-					v = id.Name
+				return true
+			})
+			// a loop over the parts: `range strings.Split(text, "|")`, directly or through a local that holds the parts
+			for _, lp := range collLoops(d.Pkg, d.Decl.Body) {
+				if !strings.HasPrefix(lp.coll, "strings.Split(") || !strings.HasSuffix(lp.coll, `, "|")`) || lp.elem == "" {
+					continue
 				}
 				trimmed := false
-				ast.Inspect(rs.Body, func(m ast.Node) bool {
-					if tc, isT := m.(*ast.CallExpr); isT && core.FullName(core.Callee(d.Pkg, tc)) == "strings.TrimSpace" && len(tc.Args) == 1 && core.ExprStr(tc.Args[0]) == v {
+				ast.Inspect(lp.body, func(m ast.Node) bool {
+					if tc, isT := m.(*ast.CallExpr); isT && core.FullName(core.Callee(d.Pkg, tc)) == "strings.TrimSpace" && len(tc.Args) == 1 && core.ExprStr(tc.Args[0]) == lp.elem {
 						trimmed = true
 					}
 					return true
@@ -200,8 +192,7 @@ func pipeSplitRule(R string) RuleFunc {
 				if trimmed {
 					ok = true
 				}
-				return true
-			})
+			}
 			detail := "no loop over strings.Split(text, \"|\") with strings.TrimSpace on each part"
 			if other != "" {
 				detail += " (the text is taken apart with " + other + ")"
